@@ -303,6 +303,20 @@ func judgeID(c Case, w *vkit.W) {
 		}
 		out(fmt.Sprintf("DefaultFormatter(\"x=\" with spare capacity %d, URN)", spare), string(bu), "x="+urn)
 	}
+	// caller buffers that already hold what looks like part of the text: the prefix, another UUID, a hyphen
+	for _, pre := range []string{"urn:uuid:", "see urn:uuid:", "URN:UUID:", "urn:", plain, urn, plain[:8] + "-", "-"} {
+		for _, f := range []uu.Format{0, uu.FormatURN} {
+			want := pre + plain
+			if f == uu.FormatURN {
+				want = pre + urn
+			}
+			got, err := uu.DefaultFormatter([]byte(pre), id, f)
+			if err != nil {
+				w.Fail(c, "formatter-error", err.Error())
+			}
+			out(fmt.Sprintf("DefaultFormatter(buffer holding %q, format %d)", pre, int(f)), string(got), want)
+		}
+	}
 	mt, err := id.MarshalText()
 	if err != nil {
 		w.Fail(c, "formatter-error", err.Error())
